@@ -264,6 +264,33 @@ def collisions(case, i):
     return (set(cc.df_cols(tabs[i + 1])) & before) - keys
 
 
+def spark_names(case):
+    """per step: the column names of the left side as PySpark has them just before the step (a USING join drops only the
+    joined key pair), and the tables hidden so far by semi/anti joins"""
+    out = list(cc.df_cols(case["left"]))
+    hidden = []
+    res = []
+    for s in case["steps"]:
+        res.append((list(out), list(hidden)))
+        k = cc.kind_of(s["how"]) or "inner"
+        rc = list(cc.df_cols(s["right"]))
+        on = s["on"]
+        if on and on[0] == "names":
+            keys = list(on[1])
+            rest = list(out)
+            for key in keys:
+                if key in rest:
+                    rest.remove(key)
+            rrest = [c for c in rc if c not in keys]
+            out = keys + rest + ([] if k in ("semi", "anti") else rrest)
+        else:
+            out = out + ([] if k in ("semi", "anti") else rc)
+        if k in ("semi", "anti"):
+            hidden.append(s["right"])
+    res.append((list(out), list(hidden)))
+    return res
+
+
 def signature(case, raised):
     f = features(case)
     steps, kinds = case["steps"], f["kinds"]
@@ -273,6 +300,11 @@ def signature(case, raised):
         k = kinds[f["on_none_non_inner"][0]]
         return "C02/on-none/" + ("semi-anti-becomes-cross-product" if k in ("semi", "anti") else "outer-becomes-cross-product")
     fin = case.get("fin")
+    sn = spark_names(case)
+    # a name join whose left side has two columns named like the key: every one of them is dropped
+    for i, s in enumerate(steps):
+        if s["on"] and s["on"][0] == "names" and any(sn[i][0].count(k) > 1 for k in s["on"][1]):
+            return "C02/name-join/left-side-has-two-columns-named-like-the-key"
     # chains: a key column of an earlier FULL/RIGHT name join referred to by name later on
     for i, s in enumerate(steps):
         if s["on"] and s["on"][0] == "names" and kinds[i] in ("full", "right"):
@@ -295,6 +327,14 @@ def signature(case, raised):
         form = "name-join" if steps[0]["on"][0] == "names" else "expr-join"
         if collisions(case, 0) or len(steps) > 1:
             return f"C02/right-join-column-order/{form}" + ("" if len(steps) == 1 else "/chain")
+    # the hidden right side of an earlier semi/anti join still takes part in the position-based resolution
+    for i, s in enumerate(steps):
+        if kinds[i] in ("semi", "anti"):
+            continue
+        keys = set(s["on"][1]) if s["on"] and s["on"][0] == "names" else set()
+        for h in sn[i][1]:
+            if (set(cc.df_cols(s["right"])) - keys) & set(cc.df_cols(h)):
+                return "C02/chain/join-after-semi-anti/hidden-table-takes-part-in-resolution"
     # a column dropped by a name join shifts the position-based resolution of a later table's same-named column
     for i, s in enumerate(steps):
         if i > 0 and collisions(case, i):
